@@ -25,7 +25,7 @@ ASSUMPTIONS = ['ids, durations and timestamps are excluded from the comparison w
 
 KINDS = ['success', 'raises', 'interrupt', 'interrupt_in_body', 'discarded', 'sampled_out', 'forced', 'handler_fault', 'key_fault', 'save_fails', 'kill_switch',
          'replay_ok', 'replay_missing_id', 'replay_missing_key', 'replay_fn_raises', 'replay_fn_interrupted', 'replay_imported',
-         'raises_unencodable', 'noop_discard', 'double_discard', 'equal_hash_args', 'forced_discarded', 'nested_play_discards_outer', 'replay_outputs_post_processed', 'context_kept_by_an_input']
+         'raises_unencodable', 'extractor_raises', 'extractor_interrupted', 'noop_discard', 'double_discard', 'equal_hash_args', 'forced_discarded', 'nested_play_discards_outer', 'replay_outputs_post_processed', 'context_kept_by_an_input']
 
 
 def hist_program(seed):
@@ -135,6 +135,13 @@ def do_element(ctx, sess, kind, seed, w):
     if kind == 'replay_imported':
         from vlib.history import replay_imported
         replay_imported(rec)
+        return
+    if kind in ('extractor_raises', 'extractor_interrupted'):
+        # the run is over and kept; the user's metadata extractor then fails with an ordinary / an interrupt-style exception
+        ek = (seed, 'extractor')
+        res = fr.execute(prog, {}, recorder=rec, spy=sess.spy, box=sess.box, with_twin=False, built=sess.builts.get(ek),
+                         extractor='raises' if kind == 'extractor_raises' else 'interrupts')
+        sess.builts[ek] = res.live
         return
     if kind == 'noop_discard':
         # a discard with nothing to discard: outside any operation (cleanup code, a signal handler, a request that was not recorded)
